@@ -33,7 +33,7 @@ import (
 // ---- universe generator ----
 
 var (
-	pool = []string{"a.zz", "b.zz", "c.zz", "d.zz", "e.zz", "f.zz", "g.zz", "h.zz", "i.zz", "j.zz", "w.a.zz", "w.b.zz"}
+	pool = []string{"a.zz", "b.zz", "c.zz", "d.zz", "e.zz", "f.zz", "g.zz", "k.zz", "s.zz", "j.zz", "w.a.zz", "w.b.zz"}
 	evil = []string{"evil.zz", "bad.evil.zz"}
 )
 
@@ -309,6 +309,22 @@ func cnameChain(z *dohfake.Zone, name string) map[string]bool {
 	return seen
 }
 
+var foldPoison atomic.Int64
+
+func foldVariant(name string) string {
+	for i := 0; i < len(name); i++ {
+		switch name[i] {
+		case 'k':
+			return name[:i] + "\u212a" + name[i+1:]
+		case 's':
+			return name[:i] + "\u017f" + name[i+1:]
+		case '.':
+			return "" // first label only
+		}
+	}
+	return ""
+}
+
 func genPoisonRR(rng *mrand.Rand, owner string, qtype uint16) dohfake.RR {
 	kind := rng.IntN(5)
 	if rng.IntN(10) < 7 {
@@ -448,6 +464,12 @@ func genZone(rng *mrand.Rand, in input) *dohfake.Zone {
 			}
 			for c := rng.IntN(3); c > 0 || len(p.Before)+len(p.After) == 0; c-- {
 				p.After = append(p.After, genPoisonRR(rng, others[rng.IntN(len(others))], k.Type))
+			}
+			// a name that Unicode case folding (not DNS: RFC 4343 folds ASCII letters only) maps onto the name asked:
+			// KELVIN SIGN for k, LONG S for s. It is another name (other octets, other length) like any unrelated owner.
+			if fv := foldVariant(k.Name); fv != "" && rng.IntN(2) == 0 {
+				p.Before = append(p.Before, genPoisonRR(rng, fv, k.Type))
+				foldPoison.Add(1)
 			}
 			z.Poison[k] = p
 		}
@@ -1173,6 +1195,8 @@ func TestCheck(t *testing.T) {
 	r.Floor("cases_with_resolver_history", int64(n)/6)
 	r.Floor("answers_with_cname_after_its_target", int64(n)/100)
 	r.Floor("universes_served_without_content_length", int64(n)/16)
+	r.Count("poison_records_owned_by_unicode_fold_variant_of_the_name", foldPoison.Load())
+	r.Floor("poison_records_owned_by_unicode_fold_variant_of_the_name", int64(n)/200)
 	r.Floor("alias_hops_followed", int64(n)/10)
 	r.Floor("loops_generated", int64(n)/100)
 	r.Floor("cname_cases", int64(n)/30)
